@@ -11,7 +11,7 @@ export PYTHONHASHSEED=0 PYTHONDONTWRITEBYTECODE=1 OMP_NUM_THREADS=1 \
 PY=/venv/bin/python
 name="$1"; shift
 case "$name" in
-  C[0-9][0-9]) f=$(ls checks/ | grep -i "^${name}_" | head -1); name="${f%.py}";;
+  C[0-9][0-9]) f=$(grep -l "^PROP = \"${name}\"" checks/*.py | head -1); f="${f#checks/}"; name="${f%.py}";;
 esac
 if [ ! -f "checks/${name}.py" ]; then echo "no such check: $name" >&2; exit 2; fi
 mkdir -p evidence replays
